@@ -1,28 +1,27 @@
-SPECIFICATION Spec
+SPECIFICATION SimSpec
 CONSTANTS
-  Parties = {"p1", "p2", "p3"}
+  Parties = {"p1", "p2", "p3", "p4"}
   Creator = "p1"
-  MaxCommits = 3
-  MaxProps = 2
-  MaxKps = 2
-  MaxEpoch = 3
-  PathRequiredChoices = {FALSE}
-  EncChoices = {FALSE}
-  ByValueMax = 1
+  MaxCommits = 40
+  MaxProps = 40
+  MaxKps = 40
+  MaxEpoch = 30
+  PathRequiredChoices = {FALSE, TRUE}
+  EncChoices = {FALSE, TRUE}
+  ByValueMax = 2
   AllowConflicts = FALSE
-  Features = {}
-  Window = 2
+  Features = {"apps", "storage"}
+  Window = 1024
   Retention = 2
   BurstSizes = {1, 2}
-  MaxApps = 0
-  Depth = 1000
-  WProgress = 60
-  WPropose = 30
-  WCommit = 35
-  WApp = 15
-  WStore = 10
-VIEW view
-INVARIANT TypeOK
+  MaxApps = 30
+  Depth = 60
+  WProgress = 55
+  WPropose = 10
+  WCommit = 30
+  WApp = 35
+  WStore = 20
+INVARIANT EmitAtDepth
 INVARIANT Agreement
 INVARIANT EpochIsChainLength
 INVARIANT TreesValid
@@ -34,5 +33,4 @@ INVARIANT ProvidersAgree
 INVARIANT RetentionExact
 INVARIANT NoGenerationReuse
 INVARIANT AtMostOnce
-PROPERTY StepsByOne
 CHECK_DEADLOCK FALSE
